@@ -581,3 +581,74 @@ Proof.
   exists (cfg0 JSRUN OMPI), (task0 [] [Build_rset 1 [[12]] []; Build_rset 44 [[60]; [50]] []] 3).
   repeat split; vm_compute; reflexivity.
 Qed.
+
+(* =============================================================== *)
+(* launcher selection: whatever launcher find_launcher selects,     *)
+(* its command starts the ranks on the placement's nodes            *)
+(* =============================================================== *)
+Lemma find_from_sound : forall cs t i j c, find_from i cs t = inr (Some (j, c)) ->
+  can_launch c t = inr true /\ (i <= j)%nat /\ nth_error cs (j - i) = Some c.
+Proof.
+  intros cs t; induction cs as [|c0 r IH]; intros i j c H; simpl in H; [discriminate|].
+  destruct (can_launch c0 t) as [e|[|]] eqn:E; [discriminate| |].
+  - injection H as <- <-. rewrite Nat.sub_diag. auto.
+  - apply IH in H as [Hc [Hle Hn]]. repeat split; [assumption|lia|].
+    replace (j - i)%nat with (S (j - S i)) by lia. exact Hn.
+Qed.
+
+(* the launch methods (and flavours) for which count, nodes and pins are proved *)
+Definition proven (c : cfg) : Prop :=
+  c_lm c = FORK \/ c_lm c = SSH \/ c_lm c = RSH \/ c_lm c = MPIRUN \/ c_lm c = SRUN \/
+  c_lm c = PRTE \/ (c_lm c = MPIEXEC /\ (c_rf c = true \/ c_flavor c <> PALS)).
+
+Lemma proven_enacts : forall c st t, proven c -> valid t ->
+  ok_count c t (mobs c st t) = true /\ ok_nodes c t (mobs c st t) = true /\
+  ok_pins c t (mobs c st t) = true.
+Proof.
+  intros c st t Hp Hv. destruct Hp as [H|[H|[H|[H|[H|[H|[H Hf]]]]]]].
+  - apply fork_enacts, H.
+  - apply single_enacts; auto.
+  - apply single_enacts; auto.
+  - apply mpirun_enacts; auto.
+  - apply srun_enacts; auto.
+  - apply prte_enacts; auto.
+  - apply mpiexec_enacts; auto.
+Qed.
+
+Lemma selected_enacts : forall cs t j c st,
+  find_launcher cs t = inr (Some (j, c)) -> valid t -> proven c ->
+  let o := (inr true, snd (get_launch_cmds c st t)) : obs1 in
+  ok_count c t o = true /\ ok_nodes c t o = true /\ ok_pins c t o = true.
+Proof.
+  intros cs t j c st Hf Hv Hp. apply find_from_sound in Hf as [Hcan _].
+  pose proof (proven_enacts c st t Hp Hv) as H. unfold mobs in H. rewrite Hcan in H. exact H.
+Qed.
+
+(* FORK is selected only for a task whose single slot is on the agent's own
+   node: the node NAME equals the agent's node name, or is 'localhost' *)
+Lemma fork_selected_own_node : forall cs t j c,
+  find_launcher cs t = inr (Some (j, c)) -> c_lm c = FORK ->
+  exists s, t_slots t = [s] /\ (s_node s = 0 \/ s_node s = c_local c).
+Proof.
+  intros cs t j c Hf Hlm. apply find_from_sound in Hf as [Hcan _]. apply fork_accepts; assumption.
+Qed.
+
+(* the oracle clauses of the selection rows hold on the model *)
+Lemma select_obs_ok : forall cs t, valid t -> (forall c, In c cs -> proven c) ->
+  sel_clause ok_count cs t (select_obs cs t) = true /\
+  sel_clause ok_nodes cs t (select_obs cs t) = true /\
+  sel_clause ok_pins cs t (select_obs cs t) = true.
+Proof.
+  intros cs t Hv Hall. unfold select_obs.
+  destruct (find_launcher cs t) as [e|[[j c]|]] eqn:Hf; unfold sel_clause; cbn [fst snd]; auto.
+  pose proof Hf as Hs. unfold find_launcher in Hs. apply find_from_sound in Hs as [Hcan [_ Hn]].
+  rewrite Nat.sub_0_r in Hn. rewrite Hn.
+  apply (selected_enacts cs t j c [] Hf Hv). apply Hall. eapply nth_error_In, Hn.
+Qed.
+
+Lemma find_launcher_sound : forall cs t j c, find_launcher cs t = inr (Some (j, c)) ->
+  can_launch c t = inr true /\ nth_error cs j = Some c.
+Proof.
+  intros cs t j c H. unfold find_launcher in H. apply find_from_sound in H as [Hc [_ Hn]].
+  rewrite Nat.sub_0_r in Hn. auto.
+Qed.
